@@ -189,6 +189,11 @@ class RecGen(np.random.Generator):
     def standard_normal(self, *a, **k):
         return self._passthrough("standard_normal", a, k)
 
+    def spawn(self, n_children):
+        # Generator.spawn would build children of type(self) - recording generators without a recorder.  Children are plain
+        # generators over the spawned bit generators (what they are handed to, and what they draw, is seen by the pool / helper).
+        return [np.random.Generator(bg) for bg in self.bit_generator.spawn(n_children)]
+
     def beta(self, *a, **k):
         return self._passthrough("beta", a, k)
 
